@@ -679,7 +679,57 @@ func scenarios() []*Scenario {
 		},
 		Observe: func(s any) string { return topicsOf(s.(*sessions.Session)) },
 	})
+	// (7b) a list handed out by GetTopics is the caller's (session teardown walks it while the session may still change):
+	// whatever the session does afterwards, the list must go on saying what it said when it was returned
+	out = append(out, &Scenario{
+		Name: "Session: [a,b] GetTopics(kept) || RemoveTopic(b);AddTopic(c) || AddTopic(d);RemoveTopic(a)",
+		New: func() any {
+			ss := &sessSnap{s: sessOf("s")}
+			ss.s.AddTopic([]byte("a"))
+			ss.s.AddTopic([]byte("b"))
+			return ss
+		},
+		Threads: [][]Op{
+			{{"GetTopics(kept)", func(s any) string {
+				ss := s.(*sessSnap)
+				ss.kept = ss.s.GetTopics()
+				ss.said = renderTopics(ss.kept)
+				return ss.said
+			}}},
+			{{"RemoveTopic(b)", func(s any) string { s.(*sessSnap).s.RemoveTopic([]byte("b")); return "" }},
+				{"AddTopic(c)", func(s any) string { s.(*sessSnap).s.AddTopic([]byte("c")); return "" }}},
+			{{"AddTopic(d)", func(s any) string { s.(*sessSnap).s.AddTopic([]byte("d")); return "" }},
+				{"RemoveTopic(a)", func(s any) string { s.(*sessSnap).s.RemoveTopic([]byte("a")); return "" }}},
+		},
+		Observe: func(s any) string {
+			ss := s.(*sessSnap)
+			now := renderTopics(ss.kept)
+			if ss.kept != nil && now != ss.said {
+				return forbiddenMarker + ": the list GetTopics returned said [" + ss.said + "] and now says [" + now + "]; session " + topicsOf(ss.s)
+			}
+			return topicsOf(ss.s)
+		},
+	})
 	return out
+}
+
+// forbiddenMarker in an outcome marks something no outcome may contain, whether or not the code produces it
+// sequentially too (the sequential reference is the code itself: it cannot judge that).
+const forbiddenMarker = "RETURNED-VALUE-CHANGED-LATER"
+
+type sessSnap struct {
+	s    *sessions.Session
+	kept [][]byte
+	said string
+}
+
+// renderTopics renders a list in its own order (unsorted: an overwritten slot shows).
+func renderTopics(l [][]byte) string {
+	var r []string
+	for _, t := range l {
+		r = append(r, string(t))
+	}
+	return strings.Join(r, ",")
 }
 
 type writerSys struct {
@@ -808,6 +858,11 @@ func TestC20Schedules(t *testing.T) {
 					return
 				}
 				seen[out]++
+				if strings.Contains(out, forbiddenMarker) {
+					// an absolute demand (not relative to what the code does sequentially): see forbiddenMarker
+					viol("c20-returned-value-changed-later", fmt.Sprintf("outcome {%s}", out))
+					return
+				}
 				orders, ok := allowed[out]
 				if ok {
 					ok = false
@@ -889,6 +944,11 @@ func TestC20Race(t *testing.T) {
 	var runs int64
 	for _, sc := range filtered(scenarios()) {
 		allowed := sc.sequentialOutcomes()
+		for o := range allowed {
+			if strings.Contains(o, forbiddenMarker) {
+				rep.Violate(vk.Violation{Sig: "c20-returned-value-changed-later:" + strings.SplitN(sc.Name, ":", 2)[0], Msg: fmt.Sprintf("%s, even sequentially: outcome {%s}", sc.Name, o)})
+			}
+		}
 		for i := 0; i < iters; i++ {
 			bodies, outcome := sc.bodies()
 			var wg sync.WaitGroup
